@@ -8,6 +8,7 @@ from .compile_pass import CodeData, CompilerError, CompilerPass, FunctionData
 from .types import IC10, IC10Instruction, IC10Operand, IC10Register, _BaseStructure
 from .types_generated import LogicBatchMethod
 from .utils import (
+    eval_constexpr,
     get_comparison_suffix,
     get_negated_comparison_suffix,
     get_unop_instruction,
@@ -285,6 +286,13 @@ class CompilerPassGenerateCode(CompilerPass):
 
         func_node = self.functions[fname]
         func_data = self.data.functions[fname]
+
+        if func_data.is_emit:
+            # the raw lines belong to the code of this call: add them where the call is
+            # compiled, so that a call in code that is never compiled emits nothing
+            for line in eval_constexpr(self.data, node):
+                data.add(IC10Instruction(line))
+            return
 
         if func_data.is_constexpr:
             data.result = IC10Operand(data.constant_value)
